@@ -24,7 +24,7 @@ class Template:
     def __init__(self, name, path=None, strict=True, pid=None):
         self.name = name; self.pid = pid
         self.path = path or os.path.join(VERIF, "units", name + ".rs")
-        self.meta = {"serves": [], "source": None, "rewrite": [], "assume": [], "rlimit": None, "export": [], "lean": [], "tables": [], "safety_pred": []}
+        self.meta = {"serves": [], "source": None, "rewrite": [], "assume": [], "rlimit": None, "export": [], "lean": [], "tables": [], "safety_pred": [], "weaken_stubs": [], "advisory": None}
         self.sections = []
         cur = None
         for ln, line in enumerate(open(self.path).read().split("\n"), 1):
@@ -40,6 +40,8 @@ class Template:
                 if d == "lean": self.meta["lean"] += args; continue
                 if d == "tables": self.meta["tables"] += args; continue
                 if d == "safety-pred": self.meta["safety_pred"] += args; continue
+                if d == "weaken-stubs": self.meta["weaken_stubs"] += args; continue
+                if d == "advisory": self.meta["advisory"] = " ".join(args) or "advisory unit"; continue
                 if d == "rewrite-text":
                     a, b2 = s[len("//@rewrite-text"):].split("==>")
                     self.meta.setdefault("rewrite_text", []).append((a.strip(), b2.strip())); continue
@@ -125,7 +127,8 @@ class Built:
 def _emit(b, chunks, text, label, real, extra=None):
     start = sum(c.count("\n") for c in chunks) + 1
     chunks.append(text)
-    end = sum(c.count("\n") for c in chunks) + 1
+    # last line that holds text of this chunk (a chunk ending in a newline does not own the line the next chunk starts on)
+    end = max(start, start + text.count("\n") - (1 if text.endswith("\n") else 0))
     b.ranges.append({"start": start, "end": end, "label": label, "real": real, **(extra or {})})
 
 def _weave_real(b, unit, tmpl_item, src_item, label, rules, degrade=False):
@@ -183,6 +186,8 @@ def build(unit, strict=True, mutate=None, pid=None, degrade=(), extras=(), pinne
         elif s.kind in ("stub", "stub-assumed"):
             txt, info = make_stub(s.arg[0], s.arg[1], strict, pid)
             info["status"] = ("proved-in:" + s.arg[0]) if (s.kind == "stub" and not info.get("home_external")) else "assumed (contract stated in unit %s, body not verified there)" % s.arg[0]
+            txt, nd = weaken_ensures(txt, t.meta["weaken_stubs"])
+            if nd: info["status"] += "; %d ensures conjunct(s) matching %s not imported (//@weaken-stubs)" % (nd, "|".join(t.meta["weaken_stubs"]))
             b.stubs.append(info)
             _emit(b, chunks, txt + "\n", "<stub:%s %s>" % (s.arg[0], s.arg[1]), False)
         elif s.kind == "assumed":
@@ -239,6 +244,9 @@ def build(unit, strict=True, mutate=None, pid=None, degrade=(), extras=(), pinne
             _emit(b, chunks, pre + render(cur) + "\n", name, True, {"file": rel, "src_line": c[0].toks[0].line})
         elif s.kind == "stub-trait":
             txt, infos = make_trait_stub(s.arg[0], s.arg[1], strict, pid)
+            txt, nd = weaken_ensures(txt, t.meta["weaken_stubs"])
+            if nd:
+                for inf in infos: inf["status"] += "; ensures conjuncts matching %s not imported (//@weaken-stubs, %d in the trait stub)" % ("|".join(t.meta["weaken_stubs"]), nd)
             b.stubs += infos
             _emit(b, chunks, txt + "\n", "<stub-trait:%s %s>" % (s.arg[0], s.arg[1]), False)
         elif s.kind == "code":
@@ -440,6 +448,51 @@ def make_trait_stub(unit, trait, strict=True, pid=None):
     if not out:
         raise LostAnchor("lost-anchor: trait %s not found in template %s" % (trait, unit))
     return "\n".join(out), infos
+
+def _has_ext(it):
+    return any(it.toks[k].text == "external_body" for k in range(it.attrs_end))
+
+def _stub_text(it):
+    toks = it.toks
+    body = first_brace_depth0(toks, it.kw_idx)
+    sig = [x for x in toks[it.attrs_end:body]]
+    return "#[verifier::external_body]\n" + render(sig).strip() + "\n{ unimplemented!() }"
+
+def weaken_ensures(text, regexes):
+    """//@weaken-stubs RE...: drop from an imported stub every `ensures` conjunct whose text matches one of the regexes.
+    The importing unit then assumes LESS about its callees than their home units prove (always sound); used by units that
+    decide safety obligations only and want the solver's context free of the callees' value-level postconditions.
+    returns (text, number of conjuncts dropped)"""
+    if not regexes: return text, 0
+    toks, _ = tokenize(text)
+    out = []; k = 0; n = len(toks); dropped = 0
+    while k < n:
+        t = toks[k]
+        if t.text != "ensures" or t.kind != "ident":
+            out.append(t); k += 1; continue
+        # conjuncts: up to the body brace / `;` / next clause keyword at bracket depth 0
+        j = k + 1; depth = 0; start = j; conj = []
+        while j < n:
+            x = toks[j].text
+            if depth == 0 and (x in ("{", ";") or (toks[j].kind == "ident" and x in ("requires", "decreases", "recommends", "opens_invariants", "no_unwind"))): break
+            if x in ("(", "[", "{"): depth += 1
+            elif x in (")", "]", "}"): depth -= 1
+            if depth == 0 and x == ",":
+                conj.append(toks[start:j]); start = j + 1
+            j += 1
+        if start < j: conj.append(toks[start:j])
+        keep = []
+        for c in conj:
+            txt = render(c)
+            if any(re.search(r, txt) for r in regexes): dropped += 1
+            else: keep.append(c)
+        if keep:
+            out.append(t)
+            for i2, c in enumerate(keep):
+                out += c
+                if i2 + 1 < len(keep): out.append(Tok(",", "", "punct", t.line))
+        k = j
+    return render(out), dropped
 
 def _has_ext(it):
     return any(it.toks[k].text == "external_body" for k in range(it.attrs_end))
